@@ -81,13 +81,14 @@ PROPS["C04"] = dict(
 
 PROPS["C06"] = dict(
     level="proof",
-    verus=["c04_partition", "c10_engine"],
-    labels=["C06.", "C07.engine.", "C10.engine.ok_replaces_rules", "C07.tags_with_set."] + MASK,
+    verus=["c04_partition", "c10_engine", "c02_regex"],
+    labels=["C06.", "C07.engine.", "C10.engine.ok_replaces_rules", "C07.tags_with_set.", "C02.regex.make.function_of_inputs", "C02.regex.compile.function_of_inputs"] + MASK,
     kani=[],
-    trusted=["NetworkFilterList::add_filter appends to the rules held (C01 units)", "regex cache (address-keyed) is NOT under contract"],
+    trusted=["NetworkFilterList::add_filter appends to the rules held (C01 units)", "regex cache (unit c02_regex, two R7 lifts of the arms of `match self.map.entry(key)` in RegexManager::matches): the Entry API itself is outside the contracts - that `key` selects this rule's entry, VacantEntry::insert hands back the stored value, cleanup() only ever sets a held regex to None; whether a pattern text compiles and whether a compiled regex matches are functions of the text and flags (uninterpreted); usage counters do not overflow",
+             "the cache invariant (a held regex was compiled from the rule that owns the key) is a precondition of the arms and re-established by them; that ids identify rules is assumed"],
     assumptions=[],
-    level_text="Verus proves batch construction and incremental add_filter agree on one category function, that a rejected add leaves every list unchanged, and that filter_exists looks where add_filter stores",
-    level_note="narrow: only the batch-vs-incremental and tag-rebuild clauses; regex caching / elapsed time are not decidable with contracts here",
+    level_text="Verus proves batch construction and incremental add_filter agree on one category function, that a rejected add leaves every list unchanged, and that filter_exists looks where add_filter stores; and that a regex query answers as the regex the rule denotes whether that regex was cached, discarded by cleanup and rebuilt, or never built (a rebuilt regex is the one that was discarded)",
+    level_note="batch-vs-incremental, tag-rebuild and regex-cache clauses; elapsed time itself (when cleanup runs) is not modelled",
     design_ref="DESIGN.md section 4, C06",
 )
 
